@@ -6,7 +6,7 @@ CONSTANTS
   AllowReg = FALSE
   CopyOpts = TRUE
   TightCap = FALSE
-  CopyArgs = FALSE
+  CopyArgs = TRUE
   HtmlDep = FALSE
 VIEW View
 INVARIANT SharedReadOnly
